@@ -900,6 +900,18 @@ func (x *Exec) collectWrites(st *State, fn *ssa.Function, blocks []*ssa.BasicBlo
 						}
 					}
 				}
+				if env != nil {
+					// element of a slice value that is fixed before the loop: only that backing array changes
+					if ia, ok := t.Addr.(*ssa.IndexAddr); ok {
+						if sl, isSl := ia.X.Type().Underlying().(*types.Slice); isSl {
+							if bv, ok := env[ia.X]; ok && bv.T != "" {
+								hn, hs := x.elemHeap(sl.Elem())
+								ws.wPoint(hn, hs, "(s_arr "+bv.T+")")
+								continue
+							}
+						}
+					}
+				}
 				if x.rootIsLocalAlloc(t.Addr, blocks, ws) {
 					ws.inFresh = true
 					x.staticAddrWrites(t.Addr, ws)
@@ -923,6 +935,14 @@ func (x *Exec) collectWrites(st *State, fn *ssa.Function, blocks []*ssa.BasicBlo
 							continue
 						}
 					}
+				}
+				if x.regionFresh(t.Map, blocks, ws) {
+					// a map made inside the analysed region: only fresh map objects change
+					ws.inFresh = true
+					ws.w(dn, ds)
+					ws.w(vn, vs)
+					ws.inFresh = false
+					continue
 				}
 				ws.w(dn, ds)
 				ws.w(vn, vs)
